@@ -3,16 +3,28 @@ import Proofs.ZoneTxnSim
 namespace Model.ZT
 open Model
 
-/-- the intended variant of the two recorded decision points -/
+/-- the intended variant of the decision points (for `d09`, `d10`: the code as it now is) -/
 structure GoodCfg (cfg : Cfg) : Prop where
   d09 : cfg.d09 = false
   d10 : cfg.d10 = false
+  gn : cfg.gn = false
 
-/-- results as the reference model reports them: the values of `changed()` and of iteration are not part of it -/
-def absRes : Res → Res
-  | .ok (.flag _) => .ok .unit
-  | .ok (.nodes _) => .ok .unit
-  | r => r
+/-- a node of the code's version and the owner's entries in the reference map hold the same rdatasets -/
+def NodeRel (cls : Nat) (k : Name) : Option Node → Option SZone → Prop
+  | none, none => True
+  | some nd, some zs => ∀ t c, nd.find cls t c = SZone.get zs (k, t, c)
+  | _, _ => False
+
+/-- results agree: equal — or, for iteration and `get_node`, the same content whatever the order
+(`Sim`: the same rdataset under every key and the same owner names, so no empty node either) -/
+def ResRel (cls : Nat) (a b : Res) : Prop :=
+  a = b ∨
+    match a, b with
+    | .ok (.nodes v), .ok (.szone z) => Sim cls v z
+    | .ok (.node k nd), .ok (.snode k' zs) => k = k' ∧ NodeRel cls k nd zs
+    | _, _ => False
+
+theorem ResRel.of_eq {cls : Nat} {a b : Res} (h : a = b) : ResRel cls a b := Or.inl h
 
 /-- the simulation between an open transaction and the reference transaction -/
 structure TSim (cfg : Cfg) (s : Txn) (t : STxn) : Prop where
@@ -22,6 +34,7 @@ structure TSim (cfg : Cfg) (s : Txn) (t : STxn) : Prop where
   iver : Inv cfg.rdclass s.ver
   ro : s.readOnly = t.readOnly
   ended : s.ended = t.ended
+  changed : s.changed = t.touched
   unchanged : s.changed = false → s.ver = s.zone
 
 /-! ### value layer: headers are preserved -/
@@ -86,24 +99,24 @@ theorem Inv.congr {cls : Nat} {v v' : Nodes} (h : ∀ k, nodesGet v' k = nodesGe
 theorem put_refines (cfg : Cfg) (s : Txn) (t : STxn) (k : Name) (r : Rdataset) (h : TSim cfg s t)
     (hr : r.rdclass = cfg.rdclass) :
     TSim cfg { s with ver := nodesSet s.ver k (((nodesGet s.ver k).getD []).replace r), changed := true }
-      { t with ver := t.ver.put k r } :=
+      { t with ver := t.ver.put k r, touched := true } :=
   { zone := h.zone, ver := sim_put _ _ _ k r h.ver h.iver hr, izone := h.izone,
-    iver := inv_put _ _ k r h.iver hr, ro := h.ro, ended := h.ended, unchanged := by simp }
+    iver := inv_put _ _ k r h.iver hr, ro := h.ro, ended := h.ended, changed := rfl, unchanged := by simp }
 
 theorem addCore_refines (cfg : Cfg) (hg : GoodCfg cfg) (s : Txn) (t : STxn) (h : TSim cfg s t)
     (replace : Bool) (name : Name) (rds : Rdataset) (extra veto : Bool) :
     TSim cfg (addCore cfg s replace name rds extra veto).1 (sPut cfg t name rds extra (!replace) veto).1 ∧
-      absRes (addCore cfg s replace name rds extra veto).2 = (sPut cfg t name rds extra (!replace) veto).2 := by
+      (addCore cfg s replace name rds extra veto).2 = (sPut cfg t name rds extra (!replace) veto).2 := by
   unfold addCore sPut
   rw [soaNameOk_spec cfg hg]
   by_cases h1 : rds.rdclass ≠ cfg.rdclass
-  · rw [if_pos h1, if_pos h1]; exact ⟨h, rfl⟩
+  · rw [if_pos h1, if_pos h1]; first | exact ⟨h, rfl⟩ | exact h
   rw [if_neg h1, if_neg h1]
   by_cases h2 : rds.rdtype = ConstsC10.soa ∧ (!soaNameOk cfg name) = true
-  · rw [if_pos h2, if_pos h2]; exact ⟨h, rfl⟩
+  · rw [if_pos h2, if_pos h2]; first | exact ⟨h, rfl⟩ | exact h
   rw [if_neg h2, if_neg h2]
   by_cases h3 : extra = true
-  · rw [if_pos h3, if_pos h3]; exact ⟨h, rfl⟩
+  · rw [if_pos h3, if_pos h3]; first | exact ⟨h, rfl⟩ | exact h
   rw [if_neg h3, if_neg h3]
   have hcls : rds.rdclass = cfg.rdclass := by simpa using h1
   cases replace with
@@ -111,36 +124,36 @@ theorem addCore_refines (cfg : Cfg) (hg : GoodCfg cfg) (s : Txn) (t : STxn) (h :
     simp only [if_true, Bool.not_true, checkedPut, putRdataset]
     cases hv : validateName cfg name with
     | error e =>
-      cases veto <;> simp <;> exact ⟨h, rfl⟩
+      cases veto <;> simp <;> first | exact ⟨h, rfl⟩ | exact h
     | ok k =>
       cases veto with
-      | true => simp; exact ⟨h, rfl⟩
+      | true => simp; first | exact ⟨h, rfl⟩ | exact h
       | false =>
         simp
-        exact ⟨put_refines cfg s t k rds h hcls, rfl⟩
+        first | exact ⟨put_refines cfg s t k rds h hcls, rfl⟩ | exact put_refines cfg s t k rds h hcls
   | false =>
     simp only [Bool.not_false, getRdataset_eq, Bool.false_eq_true, if_false]
     cases hv : validateName cfg name with
-    | error e => simp; exact ⟨h, rfl⟩
+    | error e => simp; first | exact ⟨h, rfl⟩ | exact h
     | ok k =>
       simp only [h.ver.1 k rds.rdtype rds.covers]
       cases hgq : t.ver.get (k, rds.rdtype, rds.covers) with
       | none =>
         simp only [checkedPut, putRdataset, hv]
         cases veto with
-        | true => simp; exact ⟨h, rfl⟩
-        | false => simp; exact ⟨put_refines cfg s t k rds h hcls, rfl⟩
+        | true => simp; first | exact ⟨h, rfl⟩ | exact h
+        | false => simp; first | exact ⟨put_refines cfg s t k rds h hcls, rfl⟩ | exact put_refines cfg s t k rds h hcls
       | some ex =>
         simp only [checkedPut, putRdataset, hv]
         cases veto with
-        | true => simp; exact ⟨h, rfl⟩
+        | true => simp; first | exact ⟨h, rfl⟩ | exact h
         | false =>
           simp
           have hex : ex.rdclass = cfg.rdclass := by
             have hq := h.ver.1 k rds.rdtype rds.covers
             rw [hgq, getM_eq_find] at hq
             exact (find_mem hq).2.1
-          exact ⟨put_refines cfg s t k (ex.union rds) h ((union_hdr ex rds).1.trans hex), rfl⟩
+          first | exact ⟨put_refines cfg s t k (ex.union rds) h ((union_hdr ex rds).1.trans hex), rfl⟩ | exact put_refines cfg s t k (ex.union rds) h ((union_hdr ex rds).1.trans hex)
 
 /-! ### deletions -/
 
@@ -155,12 +168,13 @@ theorem checkedDeleteRdataset_refines (cfg : Cfg) (hg : GoodCfg cfg) (s : Txn) (
     (name k : Name) (ty c : Nat) (hv : validateName cfg name = .ok k) :
     checkedDeleteRdataset cfg s name ty c false =
         ({ s with ver := delRdsM cfg.rdclass s.ver k ty c, changed := true }, .ok .unit) ∧
-      TSim cfg { s with ver := delRdsM cfg.rdclass s.ver k ty c, changed := true } { t with ver := t.ver.delRds k ty c } := by
+      TSim cfg { s with ver := delRdsM cfg.rdclass s.ver k ty c, changed := true }
+        { t with ver := t.ver.delRds k ty c, touched := true } := by
   constructor
   · unfold checkedDeleteRdataset
     simp [hv, deleteRdataset_good cfg hg s.ver name k ty c hv]
   · exact { zone := h.zone, ver := sim_delRds _ _ _ k ty c h.ver h.iver, izone := h.izone,
-            iver := inv_delRds _ _ k ty c h.iver, ro := h.ro, ended := h.ended, unchanged := by simp }
+            iver := inv_delRds _ _ k ty c h.iver, ro := h.ro, ended := h.ended, changed := rfl, unchanged := by simp }
 
 theorem deleteAll_refines (cfg : Cfg) (s : Txn) (t : STxn) (h : TSim cfg s t) (exact : Bool) (name : Name) (veto : Bool) :
     let sp : STxn × Res :=
@@ -169,11 +183,12 @@ theorem deleteAll_refines (cfg : Cfg) (s : Txn) (t : STxn) (h : TSim cfg s t) (e
       | .ok k =>
         if exact ∧ !t.ver.has k then (t, .error .deleteNotExact)
         else if veto then (t, .error .veto)
-        else ({ t with ver := t.ver.delName k }, .ok .unit)
-    TSim cfg (deleteAll cfg s exact name veto).1 sp.1 ∧ absRes (deleteAll cfg s exact name veto).2 = sp.2 := by
+        else ({ t with ver := t.ver.delName k, touched := t.touched || t.ver.has k }, .ok .unit)
+    TSim cfg (deleteAll cfg s exact name veto).1 sp.1 ∧ (deleteAll cfg s exact name veto).2 = sp.2 := by
   intro sp
   have key : ∀ k, validateName cfg name = .ok k →
-      TSim cfg (checkedDeleteName cfg s name false).1 { t with ver := t.ver.delName k } ∧
+      TSim cfg (checkedDeleteName cfg s name false).1
+          { t with ver := t.ver.delName k, touched := t.touched || t.ver.has k } ∧
         (checkedDeleteName cfg s name false).2 = .ok .unit := by
     intro k hv
     unfold checkedDeleteName deleteNode
@@ -182,7 +197,7 @@ theorem deleteAll_refines (cfg : Cfg) (s : Txn) (t : STxn) (h : TSim cfg s t) (e
     · rw [if_pos hp]
       refine ⟨?_, rfl⟩
       exact { zone := h.zone, ver := sim_delName _ _ _ k h.ver, izone := h.izone, iver := h.iver.erase k,
-              ro := h.ro, ended := h.ended, unchanged := by simp }
+              ro := h.ro, ended := h.ended, changed := by simp [← h.ver.2 k, hp, h.changed], unchanged := by simp }
     · rw [if_neg hp]
       have hnone : nodesGet s.ver k = none := by
         cases hq : nodesGet s.ver k with
@@ -195,27 +210,29 @@ theorem deleteAll_refines (cfg : Cfg) (s : Txn) (t : STxn) (h : TSim cfg s t) (e
         · simp [hk]
       refine ⟨?_, rfl⟩
       exact { zone := h.zone, ver := Sim.congr hc (sim_delName _ _ _ k h.ver), izone := h.izone, iver := h.iver,
-              ro := h.ro, ended := h.ended, unchanged := by simpa using h.unchanged }
-  show TSim cfg (deleteAll cfg s exact name veto).1 sp.1 ∧ absRes (deleteAll cfg s exact name veto).2 = sp.2
+              ro := h.ro, ended := h.ended,
+              changed := by simp [← h.ver.2 k, hnone, h.changed],
+              unchanged := by simpa using h.unchanged }
+  show TSim cfg (deleteAll cfg s exact name veto).1 sp.1 ∧ (deleteAll cfg s exact name veto).2 = sp.2
   simp only [sp]
   unfold deleteAll
   cases exact with
   | true =>
     simp only [if_true, getNode]
     cases hv : validateName cfg name with
-    | error e => simp; exact ⟨h, rfl⟩
+    | error e => simp; first | exact ⟨h, rfl⟩ | exact h
     | ok k =>
       simp only
       have hh := h.ver.2 k
       cases hq : nodesGet s.ver k with
       | none =>
         rw [hq] at hh
-        simp [← hh]; exact ⟨h, rfl⟩
+        simp [← hh]; first | exact ⟨h, rfl⟩ | exact h
       | some nd =>
         rw [hq] at hh
         simp only [← hh]
         cases veto with
-        | true => simp [checkedDeleteName]; exact ⟨h, rfl⟩
+        | true => simp [checkedDeleteName]; first | exact ⟨h, rfl⟩ | exact h
         | false =>
           simp
           obtain ⟨h1, h2⟩ := key k hv
@@ -225,11 +242,11 @@ theorem deleteAll_refines (cfg : Cfg) (s : Txn) (t : STxn) (h : TSim cfg s t) (e
     cases veto with
     | true =>
       simp only [checkedDeleteName, if_true]
-      cases hv : validateName cfg name <;> simp <;> exact ⟨h, rfl⟩
+      cases hv : validateName cfg name <;> simp <;> first | exact ⟨h, rfl⟩ | exact h
     | false =>
       cases hv : validateName cfg name with
       | error e =>
-        simp [checkedDeleteName, deleteNode, hv]; exact ⟨h, rfl⟩
+        simp [checkedDeleteName, deleteNode, hv]; first | exact ⟨h, rfl⟩ | exact h
       | ok k =>
         simp
         obtain ⟨h1, h2⟩ := key k hv
@@ -238,7 +255,7 @@ theorem deleteAll_refines (cfg : Cfg) (s : Txn) (t : STxn) (h : TSim cfg s t) (e
 theorem deleteCore_refines (cfg : Cfg) (hg : GoodCfg cfg) (s : Txn) (t : STxn) (h : TSim cfg s t)
     (exact : Bool) (name : Name) (sel : Sel) (veto : Bool) :
     TSim cfg (deleteCore cfg s exact name sel veto).1 (sDelete cfg t name sel exact veto).1 ∧
-      absRes (deleteCore cfg s exact name sel veto).2 = (sDelete cfg t name sel exact veto).2 := by
+      (deleteCore cfg s exact name sel veto).2 = (sDelete cfg t name sel exact veto).2 := by
   have hall := deleteAll_refines cfg s t h exact name veto
   cases sel with
   | all =>
@@ -248,18 +265,18 @@ theorem deleteCore_refines (cfg : Cfg) (hg : GoodCfg cfg) (s : Txn) (t : STxn) (
     unfold deleteCore sDelete
     simp only [getRdataset_eq]
     cases hv : validateName cfg name with
-    | error e => exact ⟨h, rfl⟩
+    | error e => first | exact ⟨h, rfl⟩ | exact h
     | ok k =>
       simp only [h.ver.1 k ty c]
       cases hgq : t.ver.get (k, ty, c) with
-      | none => cases exact <;> exact ⟨h, rfl⟩
+      | none => cases exact <;> first | exact ⟨h, rfl⟩ | exact h
       | some ex =>
         cases veto with
-        | true => simp [checkedDeleteRdataset]; exact ⟨h, rfl⟩
+        | true => simp [checkedDeleteRdataset]; first | exact ⟨h, rfl⟩ | exact h
         | false =>
           obtain ⟨h1, h2⟩ := checkedDeleteRdataset_refines cfg hg s t h name k ty c hv
           simp only [h1, Bool.false_eq_true, if_false]
-          exact ⟨h2, rfl⟩
+          first | exact ⟨h2, rfl⟩ | exact h2
   | rds r =>
     unfold deleteCore sDelete
     dsimp only
@@ -267,19 +284,19 @@ theorem deleteCore_refines (cfg : Cfg) (hg : GoodCfg cfg) (s : Txn) (t : STxn) (
     · rw [if_pos h0, if_pos h0]; exact hall
     rw [if_neg h0, if_neg h0]
     by_cases h1 : r.rdclass ≠ cfg.rdclass
-    · rw [if_pos h1, if_pos h1]; exact ⟨h, rfl⟩
+    · rw [if_pos h1, if_pos h1]; first | exact ⟨h, rfl⟩ | exact h
     rw [if_neg h1, if_neg h1]
     simp only [getRdataset_eq]
     cases hv : validateName cfg name with
-    | error e => exact ⟨h, rfl⟩
+    | error e => first | exact ⟨h, rfl⟩ | exact h
     | ok k =>
       simp only [h.ver.1 k r.rdtype r.covers]
       cases hgq : t.ver.get (k, r.rdtype, r.covers) with
-      | none => cases exact <;> exact ⟨h, rfl⟩
+      | none => cases exact <;> first | exact ⟨h, rfl⟩ | exact h
       | some ex =>
         simp only
         by_cases h2 : exact = true ∧ (!(ex.intersection r).eq r) = true
-        · rw [if_pos h2, if_pos h2]; exact ⟨h, rfl⟩
+        · rw [if_pos h2, if_pos h2]; first | exact ⟨h, rfl⟩ | exact h
         rw [if_neg h2, if_neg h2]
         have hex : ex.rdclass = cfg.rdclass := by
           have hq := h.ver.1 k r.rdtype r.covers
@@ -289,22 +306,22 @@ theorem deleteCore_refines (cfg : Cfg) (hg : GoodCfg cfg) (s : Txn) (t : STxn) (
         | true =>
           simp only [if_true]
           by_cases h3 : (ex.difference r).items.length = 0
-          · rw [if_pos h3]; simp [checkedDeleteRdataset]; exact ⟨h, rfl⟩
-          · rw [if_neg h3]; simp [checkedPut]; exact ⟨h, rfl⟩
+          · rw [if_pos h3]; simp [checkedDeleteRdataset]; first | exact ⟨h, rfl⟩ | exact h
+          · rw [if_neg h3]; simp [checkedPut]; first | exact ⟨h, rfl⟩ | exact h
         | false =>
           simp only [Bool.false_eq_true, if_false]
           by_cases h3 : (ex.difference r).items.length = 0
           · rw [if_pos h3, if_pos h3]
             obtain ⟨e1, e2⟩ := checkedDeleteRdataset_refines cfg hg s t h name k (ex.difference r).rdtype (ex.difference r).covers hv
-            rw [e1]; exact ⟨e2, rfl⟩
+            rw [e1]; first | exact ⟨e2, rfl⟩ | exact e2
           · rw [if_neg h3, if_neg h3]
             simp only [checkedPut, putRdataset, hv, Bool.false_eq_true, if_false]
-            exact ⟨put_refines cfg s t k (ex.difference r) h hex, rfl⟩
+            first | exact ⟨put_refines cfg s t k (ex.difference r) h hex, rfl⟩ | exact put_refines cfg s t k (ex.difference r) h hex
 
 /-! ### ending -/
 
 theorem end_refines (cfg : Cfg) (s : Txn) (t : STxn) (h : TSim cfg s t) (commit : Bool) :
-    TSim cfg (endTxn s commit).1 (sEnd t commit).1 ∧ absRes (endTxn s commit).2 = (sEnd t commit).2 := by
+    TSim cfg (endTxn s commit).1 (sEnd t commit).1 ∧ (endTxn s commit).2 = (sEnd t commit).2 := by
   unfold endTxn sEnd
   rw [← h.ended, ← h.ro]
   by_cases he : s.ended = true
@@ -312,24 +329,24 @@ theorem end_refines (cfg : Cfg) (s : Txn) (t : STxn) (h : TSim cfg s t) (commit 
   rw [if_neg he, if_neg he]
   by_cases hr : s.readOnly = true
   · rw [if_pos hr, if_pos hr]
-    exact ⟨{ zone := h.zone, ver := h.ver, izone := h.izone, iver := h.iver, ro := rfl, ended := rfl,
+    exact ⟨{ zone := h.zone, ver := h.ver, izone := h.izone, iver := h.iver, ro := rfl, ended := rfl, changed := h.changed,
              unchanged := h.unchanged }, rfl⟩
   rw [if_neg hr, if_neg hr]
   cases commit with
   | false =>
     simp only [Bool.false_eq_true, false_and, if_false]
-    exact ⟨{ zone := h.zone, ver := h.ver, izone := h.izone, iver := h.iver, ro := rfl, ended := rfl,
+    exact ⟨{ zone := h.zone, ver := h.ver, izone := h.izone, iver := h.iver, ro := rfl, ended := rfl, changed := h.changed,
              unchanged := h.unchanged }, rfl⟩
   | true =>
     simp only [true_and, if_true]
     by_cases hc : s.changed = true
     · rw [if_pos hc]
-      exact ⟨{ zone := h.ver, ver := h.ver, izone := h.iver, iver := h.iver, ro := rfl, ended := rfl,
+      exact ⟨{ zone := h.ver, ver := h.ver, izone := h.iver, iver := h.iver, ro := rfl, ended := rfl, changed := h.changed,
                unchanged := fun _ => rfl }, rfl⟩
     · rw [if_neg hc]
       have hc' : s.changed = false := by simpa using hc
       have hz := h.unchanged hc'
-      refine ⟨{ zone := ?_, ver := h.ver, izone := h.izone, iver := h.iver, ro := rfl, ended := rfl,
+      refine ⟨{ zone := ?_, ver := h.ver, izone := h.izone, iver := h.iver, ro := rfl, ended := rfl, changed := h.changed,
                 unchanged := h.unchanged }, rfl⟩
       show Sim cfg.rdclass s.zone t.ver
       rw [← hz]; exact h.ver
